@@ -19,7 +19,7 @@ import time
 import numpy as np
 
 import vf.repoenv  # noqa: F401
-from vf.common import HELD, INCONCLUSIVE, VIOLATED, Run, case_hash, main_wrapper, run_pool, seed
+from vf.common import wall_budget, HELD, INCONCLUSIVE, VIOLATED, Run, case_hash, main_wrapper, run_pool, seed
 
 PID = "C17"
 
@@ -366,7 +366,7 @@ def main(tier, replay=None):
     cases = cases_for(tier, s)
     if replay:
         cases = [json.load(open(replay))["replay"]["case"]]
-    results = run_pool("c17", cases, per_case_timeout=400, chunk=3, deadline=time.time() + (480 if tier == "quick" else 3000))
+    results = run_pool("c17", cases, per_case_timeout=400, chunk=3, deadline=time.time() + wall_budget(tier, 480, 3000))
     for r in results:
         run.add(r)
     run.extra["exhaustive"] = True
